@@ -1,4 +1,4 @@
-(* Props/C06_findings.v — witnesses of the two OPEN C06 findings (known_findings.json), evaluated
+(* Props/C06_findings.v — witness of the OPEN C06 finding (known_findings.json), evaluated
    on the executable (Q) instance of the faithful model; axiom-free. *)
 From Coq Require Import String QArith List Bool.
 From ACN Require Import Base.Num Model.Feasible Proofs.Feasible.
@@ -22,19 +22,3 @@ Proof.
 Qed.
 Print Assumptions C06_agree_nondefault_tol_refuted.
 
-(* Linear mode, default tolerances: x = -50 A on the constraint "x <= 40 A": the network side
-   computes |(-50)| = 50 > 40 and rejects, the algorithm side compares -50 <= 40 and accepts. *)
-Theorem C06_linear_agree_negative_refuted :
-  exists (n : network QF) (inf : infra QF) (X : list (list Q)) (m : mapping QF),
-    n_vt n = g_utils_default_vt QF /\ n_rt n = g_utils_default_rt QF
-    /\ infrastructure_info QF n = Ok inf
-    /\ X = dense QF (n_stations QF n) 1 m
-    /\ net_is_feasible QF n X 1 true None None = false
-    /\ iface_is_feasible QF n m true None None = Ok false
-    /\ alg_is_feasible_default QF inf X 1 true = true.
-Proof.
-  destruct witness_neg_disagree as (inf & H1 & H2 & H3 & H4).
-  exists witness_neg_net, inf, [[-50]], [(O, [-50])].
-  repeat split; auto.
-Qed.
-Print Assumptions C06_linear_agree_negative_refuted.
